@@ -54,8 +54,14 @@ class Gen:
                 break
             budget[0] -= 1
             k = r.below(100)
-            if k < 12:
+            if k < 7:
                 out.append(["mix"])
+            elif k < 9:
+                out.append(["cd", self.id()])
+            elif k < 11:
+                out.append(["md", self.id()])
+            elif k < 12:
+                out.append(["rf", self.id()])
             elif k < 22:
                 out.append(["ev", self.id()])
             elif k < 40:
@@ -87,6 +93,10 @@ class Gen:
                 out.append(["throw", self.id()])
             elif k < 96 and top:
                 out.append(["ret"])
+            elif k < 97 and top:
+                out.append(["retfy", self.id()])
+            elif k < 98:
+                out.append(["rf", self.id()])
             else:
                 out.append(["mix"])
         return out
@@ -166,6 +176,24 @@ def render(ir):
             elif k == "shared":
                 emit("shared = shared + 1;", ind)
                 emit('print(("ev", %d, me, "sh", shared));' % st[1], ind)
+            elif k == "cd":
+                # the frame and the closure use the same variable, on both sides of every suspension
+                emit("c = c + 10;", ind)
+                emit('print(("ev", %d, me, "cd", c, bump(), c));' % st[1], ind)
+            elif k == "md":
+                emit("mine = [mine[0] + 100];", ind)
+                emit('print(("ev", %d, me, "md", mine[0]));' % st[1], ind)
+            elif k == "rf":
+                # a frame that is returning suspends in its finally block; the return completes after the resume
+                emit('{ var got = rfh(acc); print(("ev", %d, me, "rf", got, inbox)); }' % st[1], ind)
+            elif k == "retfy":
+                emit("try {", ind)
+                emit("return acc;", ind + 1)
+                emit("} finally {", ind)
+                emit("inbox = Fiber.yield(acc + 9);", ind + 1)
+                emit('print(("ev", %d, me, "retfy", inbox));' % st[1], ind + 1)
+                emit("}", ind)
+                emit('print(("ev", %d, me, "retfy-fell-through"));' % st[1], ind)
             elif k == "xbump":
                 # call the counter closure another fiber instance exported (its variable lives on that fiber's stack
                 # while it is suspended, in the closed cell once it has finished or been dropped)
@@ -231,6 +259,7 @@ def render(ir):
         emit("var acc = %d; var inbox = %s; var c = 0; var bump = || { c = c + 1; return c; };" % (
             i + 1, "first" if f["param"] else "nil"), 3)
         emit("var mine = [0]; exports[me] = || { mine = [mine[0] + 1]; return mine[0]; };", 3)
+        emit('var rfh = |x| { try { return [x]; } finally { inbox = Fiber.yield(x + 7); } print(("ev", "rf-fell-through", me)); return -1; };', 3)
         block(f["body"], 3)
         emit("};", 2)
         emit("};", 1)
@@ -421,7 +450,8 @@ def model(ir, tape, faults, chooser=None):
             return r
         st8 = {"acc": me + 1, "inbox": first if f["param"] else None}
         c = [0]
-        exports[me] = [0]
+        mine = [0]
+        exports[me] = mine
 
         def call_stmt(evid):
             if pend[0] > 0:
@@ -475,6 +505,32 @@ def model(ir, tape, faults, chooser=None):
                 elif k == "shared":
                     shared[0] += 1
                     ev.append([num(st[1]), num(me), s("sh"), num(shared[0])])
+                elif k == "cd":
+                    c[0] += 10
+                    probes.inc("captured_variable_written_by_frame_and_closure")
+                    ev.append([num(st[1]), num(me), s("cd"), num(c[0]), num(c[0] + 1), num(c[0] + 1)])
+                    c[0] += 1
+                elif k == "md":
+                    mine[0] += 100
+                    ev.append([num(st[1]), num(me), s("md"), num(mine[0])])
+                elif k == "rf":
+                    probes.inc("transfer:yield_inside_finally_of_returning_frame")
+                    x = st8["acc"]
+                    if pend[0] > 0:
+                        taint.add("K-try-inside-pending-finally")
+                    st8["inbox"] = yield x + 7
+                    if pend[0] > 0:
+                        taint.add("K-try-inside-pending-finally")
+                    ev.append([num(st[1]), num(me), s("rf"), enc(("vec", x)), enc(st8["inbox"])])
+                elif k == "retfy":
+                    probes.inc("transfer:yield_inside_finally_of_returning_fiber_body")
+                    if pend[0] > 0:
+                        taint.add("K-try-inside-pending-finally")
+                    st8["inbox"] = yield st8["acc"] + 9
+                    if pend[0] > 0:
+                        taint.add("K-try-inside-pending-finally")
+                    ev.append([num(st[1]), num(me), s("retfy"), enc(st8["inbox"])])
+                    return ("ret", st8["acc"])
                 elif k == "xbump":
                     xt = pick(nf, "export")
                     if exports[xt] is not None:
